@@ -32,9 +32,12 @@ package mp4
 // The decision "a box at byte position pos (an emsg or a moof) opens a new media segment", by delimiter mechanism, in the
 // order of precedence of the library: a top-level sidx, else the tfra table of an mfra box read in advance, else the
 // start-on-moof option, else only the very first fragment opens a segment (a styp box opens one by itself, see AddChild).
-//@ pred segOpensOther(f *File, pos uint64) = ite(f.tfra != nil, pos == uint64(f.tfra.Entries[len(f.Segments)].MoofOffset), ite((f.fileDecFlags & 2) != 0, true, len(f.Segments) == 0))
-//@ pred segOpens(f *File, pos uint64) = ite(f.Sidx != nil, sidxRefAt(f.Sidxs, len(f.Segments), pos), segOpensOther(f, pos))
-//@ pred segOpensQ(f *File, pos uint64) = ite(f.Sidx != nil, sidxRefAtQ(f.Sidxs, len(f.Segments), pos), segOpensOther(f, pos))
+// The tfra table decides only while it has an entry for the segment about to start (entry number len(f.Segments)); once
+// it is exhausted the remaining rules decide. Whatever the delimiters say, the box opens a segment when there is none yet
+// (an emsg or moof always lies inside a segment).
+//@ pred segOpensOther(f *File, pos uint64) = ite(f.tfra != nil && len(f.Segments) < len(f.tfra.Entries), pos == uint64(f.tfra.Entries[len(f.Segments)].MoofOffset), ite((f.fileDecFlags & 2) != 0, true, len(f.Segments) == 0))
+//@ pred segOpens(f *File, pos uint64) = len(f.Segments) == 0 || ite(f.Sidx != nil, sidxRefAt(f.Sidxs, len(f.Segments), pos), segOpensOther(f, pos))
+//@ pred segOpensQ(f *File, pos uint64) = len(f.Segments) == 0 || ite(f.Sidx != nil, sidxRefAtQ(f.Sidxs, len(f.Segments), pos), segOpensOther(f, pos))
 
 // tiny helpers: taken by their bodies
 //@ func (*File).AddMediaSegment
@@ -52,14 +55,15 @@ package mp4
 
 //@ func (*File).startSegmentIfNeeded
 //@   requires sidxsNonNil(f.Sidxs)
-//@   requires f.Sidx == nil && f.tfra != nil ==> len(f.Segments) < len(f.tfra.Entries)
 //@   ensures[C12] len(f.Segments) == old(len(f.Segments)) || len(f.Segments) == old(len(f.Segments)) + 1
+// afterwards a segment exists for the box to go into (the "no segment yet" rule)
+//@   ensures[C12] len(f.Segments) > 0
 //@   ensures[C12] len(f.Segments) != old(len(f.Segments)) ==> old(segOpensQ(f, boxStartPos))
 //@   ensures[C12] len(f.Segments) == old(len(f.Segments)) ==> !old(segOpens(f, boxStartPos))
 //@   ensures[C12] forall i int :: 0 <= i && i < old(len(f.Segments)) ==> f.Segments[i] == old(f.Segments[i])
 //@   ensures[C12] len(f.Segments) != old(len(f.Segments)) ==> fresh(f.Segments[len(f.Segments)-1]) && f.Segments[len(f.Segments)-1].StartPos == boxStartPos && f.Segments[len(f.Segments)-1].Styp == nil && len(f.Segments[len(f.Segments)-1].Fragments) == 0 && len(f.Segments[len(f.Segments)-1].Sidxs) == 0
-//@   ensures len(f.Segments) != old(len(f.Segments)) ==> f.isFragmented
-//@   ensures len(f.Segments) == old(len(f.Segments)) ==> f.isFragmented == old(f.isFragmented)
+//@   ensures[C12] len(f.Segments) != old(len(f.Segments)) ==> f.isFragmented
+//@   ensures[C12] len(f.Segments) == old(len(f.Segments)) ==> f.isFragmented == old(f.isFragmented)
 //@   assigns f.Segments, f.Segments[:], f.isFragmented
 //@   loop 1 invariant !segStart && idx == sxCount(f.Sidxs, idx(1)) && idx(1) <= len(f.Sidxs)
 //@   loop 1 invariant forall a int :: forall j int :: 0 <= a && a < idx(1) && 0 <= j && j < sxLead(f.Sidxs[a]) ==> !(sxCount(f.Sidxs, a) + j == segIdx && boxStartPos == f.Sidxs[a].AnchorPoint + sxOff(f.Sidxs[a].SidxRefs, j))
@@ -85,9 +89,9 @@ package mp4
 //@ pred isDelim(child Box) = typeis(child, "*StypBox") || typeis(child, "*EmsgBox") || typeis(child, "*MoofBox")
 
 // Preconditions (assumptions about the caller, see report): a fragmented file's mdat follows a moof (checked by DecodeFile
-// file.go:195-198); when an emsg or moof arrives some segment exists or is opened by it (NOT established by DecodeFile:
-// finding F5); the tfra table has an entry for the segment about to start (NOT established: finding F4); a moov has the
-// trak/mdia/minf/stbl/stts chain (not established by the decoders).
+// file.go:195-198); a moov has the trak/mdia/minf/stbl/stts chain (not established by the decoders). (The two former
+// preconditions "some segment exists or is opened by an emsg/moof" and "the tfra table has an entry for the segment about
+// to start" are gone: startSegmentIfNeeded now opens a segment when there is none and consults tfra only within its bounds.)
 //@ func (*File).AddChild
 //@   requires sidxsNonNil(f.Sidxs) && lastSegOK(f)
 // the box list of the file and that of the current fragment are different arrays (each is grown only by its own append,
@@ -97,8 +101,6 @@ package mp4
 //@   requires typeis(child, "*MoofBox") ==> child.(*MoofBox) != nil
 //@   requires typeis(child, "*MdatBox") && f.isFragmented ==> len(f.Segments) > 0 && len(lastSeg(f).Fragments) > 0
 //@   requires typeis(child, "*MdatBox") && !f.isFragmented && f.Mdat != nil ==> boxOK(f.Mdat)
-//@   requires (typeis(child, "*EmsgBox") || typeis(child, "*MoofBox")) && f.Sidx == nil && f.tfra != nil ==> len(f.Segments) < len(f.tfra.Entries)
-//@   requires (typeis(child, "*EmsgBox") || typeis(child, "*MoofBox")) ==> len(f.Segments) > 0 || segOpens(f, boxStartPos)
 //@   requires typeis(child, "*MoovBox") ==> child.(*MoovBox) != nil && child.(*MoovBox).Trak != nil && child.(*MoovBox).Trak.Mdia != nil && child.(*MoovBox).Trak.Mdia.Minf != nil && child.(*MoovBox).Trak.Mdia.Minf.Stbl != nil && child.(*MoovBox).Trak.Mdia.Minf.Stbl.Stts != nil
 // every box is recorded, in order
 //@   ensures[C12] len(f.Children) == old(len(f.Children)) + 1 && f.Children[len(f.Children)-1] == child
@@ -137,7 +139,7 @@ package mp4
 //@   ensures[C12] forall i int :: 0 <= i && i < len(segDatas) ==> sidx.SidxRefs[i].ReferencedSize == segDatas[i].size && sidx.SidxRefs[i].SubSegmentDuration == segDatas[i].dur && sidx.SidxRefs[i].ReferenceType == 0 && sidx.SidxRefs[i].StartsWithSAP == 1 && sidx.SidxRefs[i].SAPType == 1 && sidx.SidxRefs[i].SAPDeltaTime == 0
 //@   ensures[C12] sidx.FirstOffset == 0 && sidx.Version == 1 && sidx.ReferenceID == 1 && sidx.Timescale == refTrak.Mdia.Mdhd.Timescale
 //@   ensures[C12] sidx.EarliestPresentationTime == ite(nonZeroEPT, segDatas[0].presentationTime, uint64(0))
-//@   ensures sidx.AnchorPoint == old(sidx.AnchorPoint) && sidx.Flags == old(sidx.Flags)
+//@   ensures[C12] sidx.AnchorPoint == old(sidx.AnchorPoint) && sidx.Flags == old(sidx.Flags)
 //@   loop 1 invariant len(sidx.SidxRefs) == idx(1) && idx(1) <= len(segDatas)
 //@   loop 1 invariant sidx.FirstOffset == 0 && sidx.Version == 1 && sidx.ReferenceID == 1 && sidx.Timescale == refTrak.Mdia.Mdhd.Timescale && sidx.EarliestPresentationTime == ept && sidx.AnchorPoint == old(sidx.AnchorPoint) && sidx.Flags == old(sidx.Flags)
 //@   loop 1 invariant forall i int :: 0 <= i && i < idx(1) ==> sidx.SidxRefs[i].ReferencedSize == segDatas[i].size && sidx.SidxRefs[i].SubSegmentDuration == segDatas[i].dur && sidx.SidxRefs[i].ReferenceType == 0 && sidx.SidxRefs[i].StartsWithSAP == 1 && sidx.SidxRefs[i].SAPType == 1 && sidx.SidxRefs[i].SAPDeltaTime == 0
@@ -160,8 +162,8 @@ package mp4
 //@ func (*MediaSegment).FirstBox
 //@   requires len(s.Sidxs) > 0 ==> s.Sidxs[0] != nil
 //@   requires len(s.Fragments) > 0 ==> s.Fragments[0] != nil
-//@   ensures result1 == nil ==> (s.Styp != nil || len(s.Sidxs) > 0 || (len(s.Fragments) > 0 && len(s.Fragments[0].Children) > 0))
-//@   ensures result1 == nil && s.Styp == nil && len(s.Sidxs) == 0 ==> result0 == s.Fragments[0].Children[0]
+//@   ensures[C12] result1 == nil ==> (s.Styp != nil || len(s.Sidxs) > 0 || (len(s.Fragments) > 0 && len(s.Fragments[0].Children) > 0))
+//@   ensures[C12] result1 == nil && s.Styp == nil && len(s.Sidxs) == 0 ==> result0 == s.Fragments[0].Children[0]
 //@   assigns nothing
 //@ func insertSidx
 //@   requires inFile != nil && sidx != nil && len(inFile.Segments) > 0 && inFile.Segments[0] != nil
@@ -175,5 +177,20 @@ package mp4
 //@   ensures[C12] result == nil ==> len(inFile.Children) == old(len(inFile.Children)) + 1
 // NOT PROVED (solvers answer unknown on the two nested appends; kept as a comment):
 //     ensures[C12] result == nil ==> (exists k int :: 0 < k && k < old(len(inFile.Children)) && typeis(inFile.Children[k], "*SidxBox") && inFile.Children[k].(*SidxBox) == sidx && (forall i int :: 0 <= i && i < k ==> inFile.Children[i] == old(inFile.Children[i])) && (forall i int :: k < i && i < len(inFile.Children) ==> inFile.Children[i] == old(inFile.Children[i-1])))
-//@   ensures result != nil ==> inFile.Sidx == old(inFile.Sidx) && len(inFile.Children) == old(len(inFile.Children))
+//@   ensures[C12] result != nil ==> inFile.Sidx == old(inFile.Sidx) && len(inFile.Children) == old(len(inFile.Children))
 //@   loop 1 invariant mediaStartIdx == 0 && idx(1) <= len(inFile.Children)
+
+// ---------------------------------------------------------------- UpdateSidx: first_offset of an existing first sidx
+// ISO/IEC 14496-12 8.16.3: first_offset is the distance from the first byte after the sidx box to the first referenced
+// byte. File.Encode writes the further top-level sidx boxes (f.Sidxs[1:]) between the filled box and the first media
+// segment, so first_offset of the filled box is the sum of their sizes (sidxTailSum); fillSidx itself leaves it 0.
+//@ spec rec sidxTailSum(xs []*SidxBox, n int) uint64 = ite(n <= 1, uint64(0), sidxTailSum(xs, n-1) + xs[n-1].Size())
+// NOT PROVED (block inactive): with -kinds post,inv the sum invariant of loop 3 is not decided (inv-pres:3 unknown after
+// 80 s) and the postcondition is refuted at the final return (sat: the []*SidxBox element memory after the loop is not
+// tied to the one the invariant speaks about; needs frame contracts for findSegmentData / findReferenceTrak, which do
+// not exist yet; the same two contracts are needed for the safety and pre obligations of UpdateSidx).
+// (inactive) func (*File).UpdateSidx
+// (inactive)   requires f != nil && sidxsNonNil(f.Sidxs)
+// (inactive)   ensures[C12] result == nil && old(f.Sidx) != nil ==> f.Sidx == old(f.Sidx) && f.Sidx.FirstOffset == sidxTailSum(f.Sidxs, len(f.Sidxs))
+// (inactive)   loop 3 invariant sidx == f.Sidx && f.Sidx == old(f.Sidx) && sidx != nil && sidxsNonNil(f.Sidxs)
+// (inactive)   loop 3 invariant 1 <= i && (i <= len(f.Sidxs) || len(f.Sidxs) == 0) && sidx.FirstOffset == sidxTailSum(f.Sidxs, i)
